@@ -1544,7 +1544,7 @@ impl Check for C19 {
     fn jobs(&self, tier: Tier) -> u64 {
         match tier {
             Tier::Quick => 150,
-            Tier::Thorough => 5_000,
+            Tier::Thorough => 3_000,
         }
     }
     fn budget_s(&self, tier: Tier) -> u64 {
